@@ -293,19 +293,20 @@ LEVEL_TEXT = ("Proved in Lean, for corpora of any size and filters of any depth 
               "(per-key value index with dict-slot semantics incl. the float wrapper and True/1 slot sharing, operator "
               "evaluation on the stored keys, int/float dual lookup, set algebra with early exits, documents indexed "
               "iff 'doc' is a root key) returns exactly the ids of the jobs a structural per-job evaluator accepts "
-              "(find_eq_ref_partial, find_mem_iff_partial); corollaries: locality (find_local_partial), $not = "
-              "complement, $and = intersection, $or = union (not_compl/and_inter/or_union_partial), and that deciding "
+              "(find_eq_ref, find_mem_iff); corollaries: locality (find_local), $not = "
+              "complement, $and = intersection, $or = union (not_compl / and_inter / or_union), and that deciding "
               "from the root keys whether documents are indexed loses nothing (indexed_data_suffices). Hypotheses: "
               "distinct ids; well-typed filter (direct evaluation raises for no job); math.isclose depends on the numeric "
-              "value only; lists in job data hold no mappings (proof restriction); no $type atom on a key under which two "
+              "value only; every mapping in the job data has distinct keys (an invariant of Python dicts; mappings inside "
+              "lists at any depth are covered); no $type atom on a key under which two "
               "jobs hold a bool and an ==-equal int (finding F-6a; the unrestricted statement is proved FALSE of the model "
               "from the two-job witness, find_eq_ref_full_false). The model is compared with the real Project.find_jobs on "
               "real on-disk projects for every generated (corpus, filter) pair, result sets and exception kinds, and its "
               "reference evaluator with the real code's verdict on single-job projects.")
 LEVEL_NOTE = ("Trusted: Lean kernel; axioms propext/Classical.choice/Quot.sound; harness (generators, wire format, tables of "
               "re.search / float(str) / math.isclose results, workspace listing order) and the independent Python per-job "
-              "evaluator used as oracle. Not proved: the statement for job data with mappings inside lists "
-              "(find_eq_ref_nonflat is kept as a Prop; such data are generated and compared in the correspondence only); "
+              "evaluator used as oracle. The distinct-keys hypothesis is needed in the model only (association lists with a repeated key: "
+              "find_eq_ref_nonflat_false); 
               "$where and the unreachable _id shortcut are outside the model. _root_keys descends into $not (F-6b, fixed in "
               "/repo): the model has the same rule, filters mentioning doc only below $not take part in the diff like "
               "any other, and the former behaviour is shown wrong in the model (old_root_keys_lose_documents). One filter naming "
